@@ -16,6 +16,11 @@ INJECT = {
     'statime/src/bmc/foreign_master.rs': [('verif_fm', 'foreign_master.rs')],
     'statime/src/bmc/dataset_comparison.rs': [('verif_cmp', 'dataset_comparison.rs')],
     'statime/src/bmc/bmca.rs': [('verif_bmca', 'bmc_bmca.rs')],
+    'statime/src/ptp_instance.rs': [('verif_inst', 'instance.rs')],
+    'statime/src/filters/kalman.rs': [('verif_servo', 'kalman.rs')],
+    'statime/src/filters/basic.rs': [('verif_basic', 'basic.rs')],
+    'statime/src/port/actions.rs': [('verif_act', 'actions.rs')],
+    'statime/src/datastructures/common/tlv.rs': [('verif_tlv', 'tlv_mod.rs')],
 }
 
 
